@@ -95,24 +95,32 @@ Fixpoint resolve_domains {A} (ifs : list (nat * A)) (ds : list (nat * list dtok)
 (* the description the rest of the model works on, with the names of meshes / interfaces / domains in order *)
 Record parsed := mkParsed { p_desc : desc; p_mesh_names : list nat; p_iface_names : list nat; p_domain_names : list nat }.
 
-Definition parse_geom (f : gfile) : option parsed :=
-  let v := gf_version f in
-  let '(meshes, ifaces) :=
-    match v, gf_meshes f with
-    | V11, Some ms =>
-        let nms := name_entries v 0 ms in
-        (nms, resolve_ifaces nms (name_entries v 0 (gf_ifaces f)))
-    | _, _ =>
-        (* meshes provided as interfaces: one interface per mesh, same name, orientation Normal *)
-        let nms := name_entries v 0 (gf_ifaces_as_meshes f) in
-        (nms, Some (map (fun km => (fst (snd km), [(1, fst km)])) (combine (seq 0 (length nms)) nms)))
-    end in
+(* the Meshes section is only looked for in a 1.1 file *)
+Definition mesh_section (f : gfile) : option (list (option nat * mesh)) :=
+  match gf_version f with V11 => gf_meshes f | V10 => None end.
+
+(* meshes provided as interfaces: one interface per mesh, same name, orientation Normal *)
+Definition shorthand_ifaces (nms : list (nat * mesh)) : list (nat * list (Z * nat)) :=
+  map (fun km => (fst (snd km), [(1, fst km)])) (combine (seq 0 (length nms)) nms).
+
+Definition finish_parse (meshes : list (nat * mesh)) (ifaces : option (list (nat * list (Z * nat)))) (ds : list (nat * list dtok)) : option parsed :=
   match ifaces with
   | None => None
   | Some ifs =>
-    match resolve_domains ifs (gf_domains f) with
+    match resolve_domains ifs ds with
     | None => None
-    | Some ds => Some (mkParsed (mkDesc (map snd meshes) (map snd ifs) ds) (map fst meshes) (map fst ifs) (map fst (gf_domains f)))
+    | Some bs => Some (mkParsed (mkDesc (map snd meshes) (map snd ifs) bs) (map fst meshes) (map fst ifs) (map fst ds))
     end
+  end.
+
+Definition parse_geom (f : gfile) : option parsed :=
+  let v := gf_version f in
+  match mesh_section f with
+  | Some ms =>
+      let nms := name_entries v 0 ms in
+      finish_parse nms (resolve_ifaces nms (name_entries v 0 (gf_ifaces f))) (gf_domains f)
+  | None =>
+      let nms := name_entries v 0 (gf_ifaces_as_meshes f) in
+      finish_parse nms (Some (shorthand_ifaces nms)) (gf_domains f)
   end.
 End Parse.
